@@ -3,6 +3,11 @@
 import json, subprocess
 
 BUILT = {
+ "C18": dict(level="fault_enumeration",
+   technique="fault injection with exhaustive enumeration of crash points (SIGKILL at hook points in a child process) and byte-granular write failures (RLIMIT_FSIZE) over rapid-generated pairs of previous/new state; oracle = on-disk file is exactly the previous or the new file and the next session loads one of the two states",
+   text="For rapid-generated pairs of a previous state A (or none) and a mutation giving state B (up to 60 bindings, values from a few bytes to tens of KB, growing / shrinking / same size / one huge value), every crash point of the auto-save of B is enumerated: before and after creating the temporary file, after each binding written by SaveGlobals, after the last write and after the rename; the child process kills itself with SIGKILL at the chosen hook point, and the parent reads ./.gr from the disk: it must be byte-identical to A's file (absent if A was absent) or B's file, A before the rename and B after it, and a fresh process must auto-load it without error into globals equal to A's or B's. Write failures are injected after 0, 1, size-1 bytes and around every line boundary; the previous file must survive.",
+   note="Uses the verif build tag (verifhook.Point). Process death, not power loss (no fsync semantics). Left-over temporary files are allowed and counted.",
+   ref="DESIGN.md section 3, C18"),
  "C17": dict(level="exploration",
    technique="exhaustive enumeration of short file names over a hostile alphabet + rapid composed names, each evaluated in a child process per IO configuration against a reference name predicate and a scan of the real file system effects",
    text="Every name up to length 5 (quick) / 6 (thorough) over {a, Z, 0, _, '.', '/', '\\', NUL, space, '~', 0xff}, bare and with .gr appended, is passed to load() and save() through repl.EvalStringWithOption in a child process whose extensions were initialised restricted or empty-only (once per process), with a working directory inside a scratch tree of sentinel files that print LEAK <path> when evaluated. Acceptance must equal a predicate written from the property and be independent of earlier requests (second pass in reversed order in a fresh child); an accepted save may only create cwd/<stem>.gr; after a rejected request the whole tree (names, sizes, hashes) must be unchanged; no sentinel other than cwd/<stem>.gr may ever be evaluated; exec/run must not exist; image.save may only create cwd/grol.png. The disabled configuration and an unrestricted positive control (the detector must see the escape) run too; rapid composes longer names from path fragments.",
